@@ -1,7 +1,7 @@
 #!/bin/bash
 # Runs the pinned suite of /repo and compares the set of passing tests with BASELINE.json (stable_pass).
 out=$(mktemp /tmp/suite.XXXXXX.xml)
-cd /repo && /venv/bin/python -m pytest -ra -q -p no:cacheprovider --timeout=900 --continue-on-collection-errors --junitxml=$out >/dev/null 2>&1
+cd "${ODML_REPO:-/repo}" && /venv/bin/python -m pytest -ra -q -p no:cacheprovider --timeout=900 --continue-on-collection-errors --junitxml=$out >/dev/null 2>&1
 /venv/bin/python - "$out" <<'PY'
 import sys, json, xml.etree.ElementTree as ET
 base=set(json.load(open('/root/.vp/BASELINE.json'))['stable_pass'])
